@@ -223,16 +223,22 @@ func c14Server(r *fw.R, mode int, list []int, lines bool) {
 	// reference negotiation
 	win := -1
 	verdict := 1
+	// Any acceptable offer of the list may be the one the server accepts (RFC 7692 section 5; the property says
+	// "falling back to a later offer"): win is the first acceptable one, and the response is checked below against
+	// every acceptable offer. An offer the reference cannot judge anywhere in the list means: no verdict.
+	var acceptable []int
 	if mode != 0 {
 		for k, i := range list {
 			o := c14Offers[i]
 			if o.OfferOK == -1 {
-				verdict = -1 // from here on the reference cannot say
+				verdict = -1
 				break
 			}
 			if o.OfferOK == 1 {
-				win = k
-				break
+				if win == -1 {
+					win = k
+				}
+				acceptable = append(acceptable, k)
 			}
 		}
 	}
@@ -277,6 +283,7 @@ func c14Server(r *fw.R, mode int, list []int, lines bool) {
 	}
 	var got wire.Params
 	got.Deflate = true
+	respCMWB := false
 	seen := map[string]bool{}
 	for _, p := range params {
 		if seen[p] {
@@ -290,19 +297,41 @@ func c14Server(r *fw.R, mode int, list []int, lines bool) {
 		case p == "server_no_context_takeover":
 			got.ServerNoCtx = true
 		case strings.HasPrefix(p, "client_max_window_bits"):
-			if !strings.Contains(o.Text, "client_max_window_bits") {
-				r.Violate("C14/response-parameter-not-offered", fmt.Sprintf("%s: response %q carries client_max_window_bits which the accepted offer %q did not contain", what, resp, o.Text), "")
-				return
-			}
+			respCMWB = true
 		case strings.HasPrefix(p, "server_max_window_bits="):
 		default:
 			r.Violate("C14/response-unknown-parameter", fmt.Sprintf("%s: response %q", what, resp), "")
 			return
 		}
 	}
-	if o.S && !got.ServerNoCtx {
-		r.Violate("C14/server-no-context-takeover-not-echoed", fmt.Sprintf("%s: the accepted offer %q asks for server_no_context_takeover but the response is %q", what, o.Text, resp), "")
+	// the response has to be a proper answer to at least one acceptable offer: server_no_context_takeover echoed
+	// if that offer asks for it, client_max_window_bits only if that offer contains it
+	matched := -1
+	echoMissing, cmwbUnoffered := false, false
+	for _, k := range acceptable {
+		ao := c14Offers[list[k]]
+		switch {
+		case ao.S && !got.ServerNoCtx:
+			echoMissing = true
+		case respCMWB && !strings.Contains(ao.Text, "client_max_window_bits"):
+			cmwbUnoffered = true
+		default:
+			if matched == -1 {
+				matched = k
+			}
+		}
+	}
+	if matched == -1 {
+		if echoMissing {
+			r.Violate("C14/server-no-context-takeover-not-echoed", fmt.Sprintf("%s: every acceptable offer that the response %q could answer asks for server_no_context_takeover, which it does not echo (first acceptable offer: %q)", what, resp, o.Text), "")
+		} else if cmwbUnoffered {
+			r.Violate("C14/response-parameter-not-offered", fmt.Sprintf("%s: response %q carries client_max_window_bits which no acceptable offer contains", what, resp), "")
+		}
 		return
+	}
+	if matched != win {
+		r.Count("responses_that_answer_a_later_acceptable_offer", 1)
+		o = c14Offers[list[matched]]
 	}
 	if got.ClientNoCtx != got.ServerNoCtx {
 		r.Count("asymmetric_agreements_exercised", 1)
